@@ -875,7 +875,42 @@ class Engine:
                 for o in done:
                     outs.append(('next', o[1]) if o[0] == 'brk' else o)
             return outs
-        raise Unsupported(s, 'while loop #%s without invariant' % ordinal)
+        # A while loop the contract has no invariant for (none on the unchanged tree: a loop
+        # that a change introduced): unwound K times with an unwinding assertion, as a
+        # bounded model checker does.  Paths leaving within K iterations are real paths; if a
+        # (K+1)-th iteration is feasible the assertion 'loopN.unwind(K)' fails, which is not
+        # among the required obligations and leaves the function undecided, never proved.
+        K = int(self.contract.opts.get('unwind', 3))
+        outs = []
+        cur = [st]
+        for k in range(K + 1):
+            nxt = []
+            for stc in cur:
+                for st1, tv in self.eval(s.test, stc):
+                    if isinstance(tv, Raised):
+                        outs.append(('raise', st1, tv.exc))
+                        continue
+                    for st2, side in self.branch(st1, self.truth(tv, s), s):
+                        if not side:
+                            if s.orelse:
+                                outs.extend(self.exec_block(s.orelse, st2))
+                            else:
+                                outs.append(('next', st2))
+                            continue
+                        if k == K:
+                            self.oblige(st2, 'loop%s.unwind(%d)' % (ordinal, K), 'unwind', False, s,
+                                        info={'note': 'while loop without invariant: iterations '
+                                                      'beyond %d are not covered' % K})
+                            continue
+                        for bo in self.exec_block(s.body, st2):
+                            if bo[0] in ('next', 'cont'):
+                                nxt.append(bo[1])
+                            elif bo[0] == 'break':
+                                outs.append(('next', bo[1]))
+                            else:
+                                outs.append(bo)
+            cur = nxt
+        return outs
 
     def static_items(self, v):
         if v.k in ('tuple', 'list') and v.items is not None:
@@ -2188,6 +2223,11 @@ class Engine:
             return [(st, self.fresh_val(kind, short) if kind != 'none' else NONE)]
         if callable(policy):
             return policy(self, selfv, args, kwargs, st, node)
+        if c is None and policy is None and qual.split('::')[0] == self.contract.file \
+                and self.inline_depth < 6:
+            # a helper of the same file the contract says nothing about (typically one that a
+            # change has just introduced): its real body is executed in place, which is exact
+            return self.inline_call(qual, f, selfv, args, kwargs, st, node)
         raise Unsupported(node, 'call of %s: no contract and not inlinable' % qual)
 
     def inline_call(self, qual, f, selfv, args, kwargs, st, node):
